@@ -201,6 +201,29 @@ func init() {
 			c01One(c, []int{1, 2, 3, 2}, []string{"r", long, "k", long + "2"}, c01Spellings[0], fmtTuples[0])
 			c01One(c, []int{1, 2}, []string{long, "k"}, c01Spellings[1], fmtTuples[1])
 		}
+		// long names made of bullet and heading characters (wherever a long line is cut into pieces, the piece starts
+		// with a character that could be taken for the start of a list item), simple and massive (single root)
+		for _, ln := range []int{4095, 4096, 4097, 8192, 12289} {
+			for _, pat := range []string{"-", "* ", "#", "+-"} {
+				if !c.Take() || c.Expired() {
+					continue
+				}
+				long := strings.TrimRight(strings.Repeat(pat, ln/len(pat)+1)[:ln], " ")
+				d, names := []int{1, 2, 3, 2}, []string{"r", long, "k", "z" + long}
+				c.StateN(1)
+				c.Inc("size_family_cases")
+				c01One(c, d, names, c01Spellings[0], fmtTuples[0])
+				doc := enum.Spell(d, names, c01Spellings[0])
+				want := model.Render(model.Merge(enum.Build(d, names)), model.DefaultFmt)
+				var got string
+				var err error
+				pan := guardMaybeMassive(true, func() { got, err, _ = sut.Output(doc, extraOpts("massive", "")...) })
+				c.Eval()
+				if pan != "" || err != nil || got != want {
+					c.Violation("C01|wrong-drawing|massive-long-line", fmt.Sprintf("single root with a %d-byte name made of %q, massive option: err=%v panic=%q, %d bytes of output, want %d", ln, pat, err, pan, len(got), len(want)), ln, nil)
+				}
+			}
+		}
 		// Part 1d: documents whose total size crosses typical buffer sizes, with a root line starting exactly at, just
 		// before and just after the boundary (simple mode; the massive counterpart is C10's bigdoc part)
 		for _, B := range []int{512, 4096, 65536, 1 << 20} {
